@@ -12,15 +12,15 @@ import (
 // cache (not flushed); block n+1 is then REJECTED by storeBlock after its trie batch was applied (the
 // recorded header n+2 commits to another root).  After a flush the database must equal that of a control
 // replica that never saw the rejected block.  Returns a description of the difference ("" = none).
-func c06H6(in c06Input, backend string) (string, error) {
+func c06H6(in c06Input, backend string) (string, string, error) {
 	b, err := c02Build(c02History{Cfg: in.Cfg, Blocks: in.Blocks})
 	if err != nil {
-		return "", err
+		return "", "", err
 	}
 	defer b.close()
 	top := uint32(len(b.Blocks) - 1)
 	if top < 3 {
-		return "", nil
+		return "", "", nil
 	}
 	cfg := in.Cfg
 	cfg.Backend = backend
@@ -71,22 +71,24 @@ func c06H6(in c06Input, backend string) (string, error) {
 	}
 	ctl, _, err := run(false)
 	if err != nil {
-		return "", err
+		return "", "", err
 	}
 	att, verdict, err := run(true)
 	if err != nil {
-		return "", err
+		return "", "", err
 	}
-	nd, ex := c02DiffDumps(ctl, att, func(k string, va, vb []byte) bool {
+	allowed := func(k string, va, vb []byte) bool {
 		// the two recorded headers and the header pointer are the permitted difference
 		c := c02Class(k, va)
 		if va == nil {
 			c = c02Class(k, vb)
 		}
 		return c == "curheader" || (c == "blk" && va == nil)
-	})
-	if nd == 0 {
-		return "", nil
 	}
-	return fmt.Sprintf("verdict=%s: %d keys differ: %v", verdict, nd, ex), nil
+	nd, ex := c02DiffDumps(ctl, att, allowed)
+	if nd == 0 {
+		return "", "", nil
+	}
+	cls := c02DiffClasses(ctl, att, allowed)
+	return fmt.Sprintf("verdict=%s: %d keys differ, classes=%s: %v", verdict, nd, cls, ex), cls, nil
 }
